@@ -1,23 +1,492 @@
-//! Scripted peer (placeholder; filled in below).
+//! Scripted peer: a simulator-owned raw uTP speaker with its own codec and a few lines of
+//! reference state. It plays a compliant or hostile sender/receiver from a seeded script.
+//! All sequence addressing in scripts is relative, so scripts are ISN-independent.
+use std::{collections::BTreeMap, time::Duration};
+
 use serde::{Deserialize, Serialize};
 
-use crate::world::{Ctx, Sock};
+use crate::{
+    codec::{self, Pkt},
+    hist::{self, Ev},
+    net::RawEndpoint,
+    util::{prf_fill, seq_diff},
+    world::{Ctx, Sock},
+};
 
-#[derive(Clone, Debug, Default, PartialEq, Serialize, Deserialize)]
+#[derive(Clone, Copy, Debug, PartialEq, Eq, Serialize, Deserialize, Default)]
+pub enum PeerRole {
+    /// The peer sends the SYN; the real endpoint accepts.
+    #[default]
+    Connector,
+    /// The real endpoint connects; the peer answers the SYN.
+    Acceptor,
+}
+
+#[derive(Clone, Copy, Debug, PartialEq, Serialize, Deserialize, Default)]
+pub enum AckMode {
+    /// Never acknowledge automatically (the script does it).
+    #[default]
+    Manual,
+    /// Acknowledge every received data packet at the instant it arrives.
+    Immediate,
+    /// Acknowledge `ms` after a data packet arrived (one ACK per arrival).
+    Delayed(u64),
+    /// Acknowledge every n-th data packet at once.
+    EveryN(u32),
+}
+
+#[derive(Clone, Debug, PartialEq, Serialize, Deserialize, Default)]
+pub struct AutoCfg {
+    pub ack: AckMode,
+    /// Attach a selective-ACK extension when data is held out of order.
+    pub sack: bool,
+    /// Acknowledge the endpoint's FIN and answer it with the peer's own FIN.
+    pub answer_fin: bool,
+    /// Receive-buffer model: the advertised window is `buf - undrained bytes`; None = fixed `wnd`.
+    pub rx_model: Option<RxModel>,
+}
+
+#[derive(Clone, Copy, Debug, PartialEq, Serialize, Deserialize)]
+pub struct RxModel {
+    pub buf: u32,
+    /// Bytes the peer "application" drains per millisecond (0 = only by script step Drain).
+    pub drain_per_ms: u32,
+}
+
+#[derive(Clone, Debug, PartialEq, Serialize, Deserialize)]
+pub enum SackSpec {
+    /// From the peer's reference state.
+    Auto,
+    None,
+    /// Explicit bits (bit i = ack_nr + 2 + i), arbitrary length.
+    Bits(Vec<bool>),
+    /// Explicit raw extension bytes (any length, for hostile scripts).
+    Raw(Vec<u8>),
+}
+
+#[derive(Clone, Debug, PartialEq, Serialize, Deserialize)]
+pub enum PeerStep {
+    Wait(u64),
+    /// Send packet i of the peer's predetermined packet list (again if already sent).
+    SendPkt(usize),
+    /// Send an ST_DATA with sequence number = first data number + rel and `len` PRF bytes that
+    /// do not belong to the stream (hostile: beyond window / far future / after FIN).
+    RogueData { rel: i32, len: u16 },
+    /// Send ST_STATE: ack = cumulative + ack_delta.
+    Ack { ack_delta: i32, wnd: Option<u32>, sack: SackSpec },
+    /// FIN at its proper number (after all packets) or at packet index `at` (out of sequence).
+    Fin { at: Option<usize> },
+    Reset,
+    /// Re-send the SYN (Connector role) / the SYN-ACK (Acceptor role).
+    HandshakeDup,
+    SetWnd(u32),
+    SetAuto(AutoCfg),
+    /// Drain n bytes from the receive-buffer model (opens the window).
+    Drain(u32),
+    /// Raw datagram (header fields given explicitly; ids relative to the connection).
+    Raw { typ: u8, ver: u8, id_delta: i16, seq_rel: i32, ack_delta: i32, wnd: u32, ext: Vec<(u8, Vec<u8>)>, payload_len: u16 },
+    /// Stop reacting to anything from now on (peer vanished).
+    Vanish,
+}
+
+#[derive(Clone, Debug, PartialEq, Serialize, Deserialize, Default)]
 pub struct PeerScript {
+    pub role: PeerRole,
+    pub isn: u16,
+    pub conn_id: u16,
+    pub wnd: u32,
+    pub auto: AutoCfg,
+    /// Payload lengths of the peer's own stream packets, in sequence order.
     #[serde(default)]
-    pub steps: Vec<u8>,
+    pub pkts: Vec<u16>,
+    pub steps: Vec<PeerStep>,
+    /// When the SYN is sent (Connector role), ms.
+    #[serde(default)]
+    pub start_ms: u64,
+    /// Answer the endpoint's SYN after this delay (Acceptor role), ms.
+    #[serde(default)]
+    pub synack_delay_ms: u64,
 }
 
 impl PeerScript {
     pub fn summary(&self) -> serde_json::Value {
-        serde_json::json!({})
+        serde_json::json!({"role": self.role, "isn": self.isn, "wnd": self.wnd, "auto": self.auto, "packets": self.pkts.len(), "steps": self.steps.len(), "first_steps": self.steps.iter().take(12).collect::<Vec<_>>()})
     }
     pub fn weight(&self) -> u64 {
-        self.steps.len() as u64
+        self.steps.len() as u64 * 10 + self.pkts.iter().map(|l| *l as u64).sum::<u64>()
+    }
+    pub fn pkt_offset(&self, i: usize) -> u64 {
+        self.pkts.iter().take(i).map(|l| *l as u64).sum()
+    }
+    /// Sequence number of the peer's i-th data packet.
+    pub fn pkt_seq(&self, i: usize) -> u16 {
+        let first = match self.role {
+            PeerRole::Connector => self.isn.wrapping_add(1),
+            PeerRole::Acceptor => self.isn,
+        };
+        first.wrapping_add(i as u16)
+    }
+    pub fn fin_seq(&self) -> u16 {
+        self.pkt_seq(self.pkts.len())
     }
 }
 
-pub fn spawn(_ctx: &Ctx, _socks: &[Sock], _p: &PeerScript) -> usize {
-    0
+struct State {
+    sc_peer: PeerScript,
+    ep: RawEndpoint,
+    remote: std::net::SocketAddr,
+    key_tx: u64,
+    /// connection ids: what the peer sends with / receives on
+    id_send: u16,
+    id_recv: u16,
+    established: bool,
+    /// endpoint's data: seq -> len, cumulative ack (highest in-order seq received)
+    rcv: BTreeMap<u16, usize>,
+    rcv_cum: u16,
+    rcv_cum_valid: bool,
+    endpoint_fin: Option<u16>,
+    fin_answered: bool,
+    wnd: u32,
+    auto: AutoCfg,
+    undrained: u64,
+    last_drain_t: u64,
+    since_ack: u32,
+    vanished: bool,
+    last_ts_from_endpoint: u32,
+    syn_seen: Option<Pkt>,
+}
+
+impl State {
+    fn now_window(&mut self) -> u32 {
+        match self.auto.rx_model {
+            None => self.wnd,
+            Some(m) => {
+                let now = hist::now() / hist::MS;
+                if m.drain_per_ms > 0 && now > self.last_drain_t {
+                    let d = (now - self.last_drain_t) * m.drain_per_ms as u64;
+                    self.undrained = self.undrained.saturating_sub(d);
+                }
+                self.last_drain_t = now;
+                (m.buf as u64).saturating_sub(self.undrained) as u32
+            }
+        }
+    }
+
+    fn base(&mut self, typ: u8) -> Pkt {
+        let mut p = Pkt::new(typ, self.id_send, 0, self.rcv_cum, 0);
+        p.wnd = self.now_window();
+        p.ts = (hist::now() / 1000) as u32;
+        p.ts_diff = p.ts.wrapping_sub(self.last_ts_from_endpoint);
+        p
+    }
+
+    fn auto_sack_bits(&self) -> Option<Vec<bool>> {
+        // bit i <-> rcv_cum + 2 + i
+        let mut bits = vec![false; 64];
+        let mut any = false;
+        for seq in self.rcv.keys() {
+            let d = seq_diff(*seq, self.rcv_cum);
+            if d >= 2 && (d - 2) < 64 {
+                bits[(d - 2) as usize] = true;
+                any = true;
+            }
+        }
+        any.then_some(bits)
+    }
+
+    fn next_seq_for_control(&self) -> u16 {
+        self.sc_peer.fin_seq()
+    }
+
+    fn send_ack(&mut self, ack_delta: i32, wnd: Option<u32>, sack: &SackSpec) {
+        let mut p = self.base(codec::ST_STATE);
+        p.seq = self.next_seq_for_control();
+        p.ack = self.rcv_cum.wrapping_add(ack_delta as u16);
+        if let Some(w) = wnd {
+            p.wnd = w;
+        }
+        match sack {
+            SackSpec::Auto => {
+                if self.auto.sack {
+                    if let Some(bits) = self.auto_sack_bits() {
+                        p.set_sack_bits(&bits);
+                    }
+                }
+            }
+            SackSpec::None => {}
+            SackSpec::Bits(b) => p.set_sack_bits(b),
+            SackSpec::Raw(d) => p.exts.push((codec::EXT_SACK, d.clone())),
+        }
+        self.ep.send(self.remote, p.serialize());
+    }
+
+    fn send_pkt(&mut self, i: usize) {
+        let Some(len) = self.sc_peer.pkts.get(i).copied() else { return };
+        let mut p = self.base(codec::ST_DATA);
+        p.seq = self.sc_peer.pkt_seq(i);
+        let mut payload = vec![0u8; len as usize];
+        prf_fill(self.key_tx, self.sc_peer.pkt_offset(i), &mut payload);
+        p.payload = payload;
+        self.ep.send(self.remote, p.serialize());
+    }
+
+    fn on_datagram(&mut self, raw: &[u8]) {
+        if self.vanished {
+            return;
+        }
+        let Ok(p) = Pkt::parse(raw) else { return };
+        self.last_ts_from_endpoint = p.ts;
+        match p.typ {
+            codec::ST_SYN if self.sc_peer.role == PeerRole::Acceptor && self.syn_seen.is_none() => {
+                self.syn_seen = Some(p.clone());
+                self.id_send = p.conn_id;
+                self.id_recv = p.conn_id.wrapping_add(1);
+                self.rcv_cum = p.seq;
+                self.rcv_cum_valid = true;
+            }
+            codec::ST_STATE if self.sc_peer.role == PeerRole::Connector && !self.established => {
+                // SYN-ACK: endpoint's first data packet will carry this sequence number.
+                self.established = true;
+                self.rcv_cum = p.seq.wrapping_sub(1);
+                self.rcv_cum_valid = true;
+            }
+            codec::ST_DATA => {
+                if !self.rcv_cum_valid {
+                    return;
+                }
+                let is_new = seq_diff(p.seq, self.rcv_cum) > 0 && !self.rcv.contains_key(&p.seq);
+                if is_new {
+                    // receive-buffer model: drop what does not fit
+                    if let Some(m) = self.auto.rx_model {
+                        let _ = self.now_window();
+                        if self.undrained + p.payload.len() as u64 > m.buf as u64 {
+                            return;
+                        }
+                        self.undrained += p.payload.len() as u64;
+                    }
+                    self.rcv.insert(p.seq, p.payload.len());
+                    while self.rcv.contains_key(&self.rcv_cum.wrapping_add(1)) {
+                        self.rcv_cum = self.rcv_cum.wrapping_add(1);
+                    }
+                }
+                self.since_ack += 1;
+            }
+            codec::ST_FIN => {
+                self.endpoint_fin = Some(p.seq);
+                if seq_diff(p.seq, self.rcv_cum) == 1 {
+                    self.rcv_cum = p.seq;
+                }
+            }
+            _ => {}
+        }
+    }
+}
+
+/// Spawns the peer task. Returns the number of "script tasks" the runner has to wait for.
+pub fn spawn(ctx: &Ctx, _socks: &[Sock], p: &PeerScript) -> usize {
+    let sc = ctx.sc.clone();
+    let peer_addr = sc.addr(1);
+    let remote = sc.addr(0);
+    let ep = ctx.net.bind_raw(peer_addr);
+    let key_tx = match p.role {
+        PeerRole::Connector => sc.stream_key(0, 0),
+        PeerRole::Acceptor => sc.stream_key(0, 1),
+    };
+    let mut st = State {
+        sc_peer: p.clone(),
+        ep: ep.clone(),
+        remote,
+        key_tx,
+        id_send: p.conn_id.wrapping_add(1),
+        id_recv: p.conn_id,
+        established: false,
+        rcv: BTreeMap::new(),
+        rcv_cum: 0,
+        rcv_cum_valid: false,
+        endpoint_fin: None,
+        fin_answered: false,
+        wnd: p.wnd,
+        auto: p.auto.clone(),
+        undrained: 0,
+        last_drain_t: 0,
+        since_ack: 0,
+        vanished: false,
+        last_ts_from_endpoint: 0,
+        syn_seen: None,
+    };
+    let ctx2 = ctx.clone();
+    tokio::spawn(async move {
+        let ctx = ctx2;
+        // pending delayed auto-acks: virtual ms at which to fire
+        let mut delayed: Vec<u64> = vec![];
+        let mut step_idx = 0usize;
+        let mut next_step_at: u64 = st.sc_peer.start_ms;
+        let mut syn_sent = false;
+        let mut synack_due: Option<u64> = None;
+        let mut script_done_signalled = false;
+        loop {
+            let now_ms = hist::now() / hist::MS;
+            // 1. handshake actions
+            if st.sc_peer.role == PeerRole::Connector && !syn_sent && now_ms >= st.sc_peer.start_ms {
+                let mut syn = Pkt::new(codec::ST_SYN, st.sc_peer.conn_id, st.sc_peer.isn, 0, 0);
+                syn.ts = (hist::now() / 1000) as u32;
+                st.ep.send(remote, syn.serialize());
+                syn_sent = true;
+            }
+            if st.sc_peer.role == PeerRole::Acceptor && !st.established {
+                if let (Some(_), None) = (&st.syn_seen, synack_due) {
+                    synack_due = Some(now_ms + st.sc_peer.synack_delay_ms);
+                }
+                if synack_due.is_some_and(|d| now_ms >= d) {
+                    let mut sa = st.base(codec::ST_STATE);
+                    sa.seq = st.sc_peer.isn;
+                    st.ep.send(remote, sa.serialize());
+                    st.established = true;
+                }
+            }
+            // 2. delayed auto-acks that are due
+            let mut fired = false;
+            delayed.retain(|t| {
+                if *t <= now_ms {
+                    fired = true;
+                    false
+                } else {
+                    true
+                }
+            });
+            if fired && !st.vanished {
+                st.send_ack(0, None, &SackSpec::Auto);
+            }
+            // 3. script steps (only once established)
+            while st.established && step_idx < st.sc_peer.steps.len() && now_ms >= next_step_at {
+                let step = st.sc_peer.steps[step_idx].clone();
+                step_idx += 1;
+                match step {
+                    PeerStep::Wait(ms) => {
+                        next_step_at = now_ms + ms;
+                        if ms > 0 {
+                            break;
+                        }
+                    }
+                    PeerStep::SendPkt(i) => st.send_pkt(i),
+                    PeerStep::RogueData { rel, len } => {
+                        let mut p = st.base(codec::ST_DATA);
+                        p.seq = st.sc_peer.pkt_seq(0).wrapping_add(rel as u16);
+                        let mut payload = vec![0u8; len.max(1) as usize];
+                        prf_fill(st.key_tx ^ 0xBAD, rel as u64, &mut payload);
+                        p.payload = payload;
+                        st.ep.send(remote, p.serialize());
+                    }
+                    PeerStep::Ack { ack_delta, wnd, sack } => st.send_ack(ack_delta, wnd, &sack),
+                    PeerStep::Fin { at } => {
+                        let mut p = st.base(codec::ST_FIN);
+                        p.seq = match at {
+                            Some(i) => st.sc_peer.pkt_seq(i),
+                            None => st.sc_peer.fin_seq(),
+                        };
+                        st.ep.send(remote, p.serialize());
+                    }
+                    PeerStep::Reset => {
+                        let mut p = st.base(codec::ST_RESET);
+                        p.seq = st.next_seq_for_control();
+                        st.ep.send(remote, p.serialize());
+                    }
+                    PeerStep::HandshakeDup => match st.sc_peer.role {
+                        PeerRole::Connector => {
+                            let mut syn = Pkt::new(codec::ST_SYN, st.sc_peer.conn_id, st.sc_peer.isn, 0, 0);
+                            syn.ts = (hist::now() / 1000) as u32;
+                            st.ep.send(remote, syn.serialize());
+                        }
+                        PeerRole::Acceptor => {
+                            if let Some(syn) = &st.syn_seen {
+                                let mut sa = Pkt::new(codec::ST_STATE, st.id_send, st.sc_peer.isn, syn.seq, st.wnd);
+                                sa.ts = (hist::now() / 1000) as u32;
+                                st.ep.send(remote, sa.serialize());
+                            }
+                        }
+                    },
+                    PeerStep::SetWnd(w) => st.wnd = w,
+                    PeerStep::SetAuto(a) => st.auto = a,
+                    PeerStep::Drain(n) => {
+                        let _ = st.now_window();
+                        st.undrained = st.undrained.saturating_sub(n as u64);
+                    }
+                    PeerStep::Raw { typ, ver, id_delta, seq_rel, ack_delta, wnd, ext, payload_len } => {
+                        let mut p = st.base(typ & 0x0f);
+                        p.ver = ver & 0x0f;
+                        p.conn_id = st.id_send.wrapping_add(id_delta as u16);
+                        p.seq = st.sc_peer.pkt_seq(0).wrapping_add(seq_rel as u16);
+                        p.ack = st.rcv_cum.wrapping_add(ack_delta as u16);
+                        p.wnd = wnd;
+                        p.exts = ext;
+                        let mut payload = vec![0u8; payload_len as usize];
+                        prf_fill(st.key_tx ^ 0xF00D, seq_rel as u64, &mut payload);
+                        p.payload = payload;
+                        st.ep.send(remote, p.serialize());
+                    }
+                    PeerStep::Vanish => {
+                        st.vanished = true;
+                        ctx.hist.lock().unwrap().push(Ev::Fault("peer vanished".into()));
+                        ctx.hist.lock().unwrap().count_fault("peer_vanish");
+                    }
+                }
+            }
+            if step_idx >= st.sc_peer.steps.len() && !script_done_signalled && st.established {
+                script_done_signalled = true;
+                ctx.done.fetch_add(1, std::sync::atomic::Ordering::SeqCst);
+                ctx.done_notify.notify_one();
+            }
+            // 4. wait for the next thing: datagram or timer
+            let mut next_wake: Option<u64> = delayed.iter().copied().min();
+            if st.established && step_idx < st.sc_peer.steps.len() {
+                next_wake = Some(next_wake.map_or(next_step_at, |w| w.min(next_step_at)));
+            }
+            if !syn_sent && st.sc_peer.role == PeerRole::Connector {
+                next_wake = Some(st.sc_peer.start_ms);
+            }
+            if let Some(d) = synack_due {
+                if !st.established {
+                    next_wake = Some(next_wake.map_or(d, |w| w.min(d)));
+                }
+            }
+            let sleep = async {
+                match next_wake {
+                    Some(ms) => tokio::time::sleep_until(hist::start() + Duration::from_millis(ms)).await,
+                    None => std::future::pending::<()>().await,
+                }
+            };
+            tokio::select! {
+                biased;
+                (raw, _src) = ep.recv() => {
+                    let before_cum = st.rcv_cum;
+                    let was_data = Pkt::parse(&raw).is_ok_and(|p| p.typ == codec::ST_DATA);
+                    let was_fin = Pkt::parse(&raw).is_ok_and(|p| p.typ == codec::ST_FIN);
+                    st.on_datagram(&raw);
+                    let _ = before_cum;
+                    if st.vanished || !st.established { continue; }
+                    if was_data {
+                        match st.auto.ack {
+                            AckMode::Manual => {}
+                            AckMode::Immediate => st.send_ack(0, None, &SackSpec::Auto),
+                            AckMode::Delayed(ms) => delayed.push(hist::now() / hist::MS + ms),
+                            AckMode::EveryN(n) => {
+                                if st.since_ack >= n {
+                                    st.since_ack = 0;
+                                    st.send_ack(0, None, &SackSpec::Auto);
+                                }
+                            }
+                        }
+                    }
+                    if was_fin && st.auto.answer_fin && !st.fin_answered && st.endpoint_fin == Some(st.rcv_cum) {
+                        st.fin_answered = true;
+                        let mut p = st.base(codec::ST_FIN);
+                        p.seq = st.sc_peer.fin_seq();
+                        st.ep.send(remote, p.serialize());
+                    }
+                }
+                _ = sleep => {}
+            }
+        }
+    });
+    1
 }
